@@ -395,6 +395,8 @@ def encrypt_sym(alg_i, fix_mode=None):
             bad_pad = pad_needed and pad not in (PM.PKCS5, PM.ANSI_X923)
             uses_iv_ = mode in (BM.CBC, BM.OFB, BM.CFB, BM.CTR)     # (GCM takes any IV of 8..128 bytes)
             bad_iv = uses_iv_ and has_iv and len(iv) != blk          # the backend refuses a short IV
+            if gcm and has_iv and not (8 <= len(iv) <= 128):
+                bad_iv = True                                        # GCM: 64..1024 bits (64-bit block ciphers: blk-1 = 7)
             bad_tag = gcm and has_tag_len and tag_len < 4               # ... and tags shorter than 4 bytes
             return (bad_key or unsupported_mode or bad_pad or (has_aad and not gcm) or (gcm and not has_tag_len)
                     or bad_iv or bad_tag)
